@@ -135,7 +135,7 @@ fn check_subset(ont: &Ontology, r: &RefOnt, x: &[u32]) -> V {
 
 pub fn run(ctx: &mut Ctx) {
     let thorough = ctx.tier.thorough();
-    ctx.rule = "case = one ontology of family E (HP:1, HP:118, modifier root HP:5, k free terms with every parent-subset choice, six obsolete/replacement patterns, records of all kinds) with every subset of its terms as HpoSet; distinct by construction; non-trivial = ontology with an obsolete or replaced term and at least one link among free terms".into();
+    ctx.rule = "case = one ontology of family E (HP:1, HP:118, modifier root HP:5, k free terms with every parent-subset choice, eight obsolete/replacement patterns, records of all kinds) with every subset of its terms as HpoSet; distinct by construction; non-trivial = ontology with an obsolete or replaced term and at least one link among free terms".into();
     ctx.assumptions = vec!["replacement ids name existing terms".into(), "ontologies are loaded with defaults (from_bytes), so modifier roots and categories are set".into()];
     let kmax = if thorough { 4 } else { 3 };
     let family = family_e(0, kmax, &[200, 7, 300, 150]);
@@ -181,6 +181,82 @@ pub fn run(ctx: &mut Ctx) {
         }
         ctx.outcome(crate::ctx::fnv_str(what) % 65536);
         ctx.sample(|| json!({"family": what, "facts": f.to_json(), "subsets": 1u32 << n}));
+    }
+    // ---- custom modifier roots and categories (Ontology::modifier_mut / categories_mut are public)
+    let small = family_e(1, 2, &[200, 7]);
+    ctx.space("custom-modifier-roots-and-categories", &format!("{} ontologies (k <= 2, no flags) built with build_minimal; every single term and every pair of terms installed as custom modifier roots through modifier_mut(), categories set to an unrelated pair through categories_mut(); every subset as HpoSet: without_modifier / remove_modifier / categories", small.iter().filter(|(f, _)| f.terms.iter().all(|t| !t.obsolete && t.replacement.is_none())).count()));
+    for (f, what) in &small {
+        if f.terms.iter().any(|t| t.obsolete || t.replacement.is_some()) {
+            continue;
+        }
+        if !ctx.take() {
+            continue;
+        }
+        ctx.state();
+        ctx.nontrivial();
+        let r = RefOnt::derive(f);
+        let ids: Vec<u32> = f.terms.iter().map(|t| t.id).collect();
+        let n = ids.len();
+        let mut root_sets: Vec<Vec<u32>> = ids.iter().map(|i| vec![*i]).collect();
+        for a in 0..n {
+            for b in a + 1..n {
+                root_sets.push(vec![ids[a], ids[b]]);
+            }
+        }
+        for roots in &root_sets {
+            let cats: Vec<u32> = vec![ids[n - 1], ids[1]];
+            ctx.transitions(f.n_steps() + 2);
+            let Ok(mut ont) = drive::build(f, Mode::Minimal) else { continue };
+            for x in roots {
+                ont.modifier_mut().insert(*x);
+            }
+            for c in &cats {
+                ont.categories_mut().insert(*c);
+            }
+            for mask in 0..(1u32 << n) {
+                let x: Vec<u32> = crate::space::bits(mask, n).iter().map(|i| ids[*i]).collect();
+                ctx.exec();
+                ctx.validated();
+                let res = guard(|| -> V {
+                    let set = set_of(&ont, &x);
+                    let mut want: Vec<u32> = x.iter().copied().filter(|t| !r.anc_incl(*t).iter().any(|a| roots.contains(a))).collect();
+                    want.sort_unstable();
+                    let got = ids_of(&set.without_modifier());
+                    if got != want {
+                        return Some(("HpoSet::without_modifier".into(), "[custom modifier roots] does not drop exactly the members that are or descend from a modifier root".into(), format!("roots {roots:?} set {x:?}: {got:?} expected {want:?}")));
+                    }
+                    let mut m = set_of(&ont, &x);
+                    m.remove_modifier();
+                    if ids_of(&m) != want {
+                        return Some(("HpoSet::remove_modifier".into(), "[custom modifier roots] in-place result differs from the copying counterpart".into(), format!("roots {roots:?} set {x:?}: {:?} expected {want:?}", ids_of(&m))));
+                    }
+                    for t in &x {
+                        let tm = ont.hpo(*t).unwrap().is_modifier();
+                        let wm = r.anc_incl(*t).iter().any(|a| roots.contains(a));
+                        if tm != wm {
+                            return Some(("HpoTerm::is_modifier".into(), "[custom modifier roots] wrong modifier classification".into(), format!("roots {roots:?} term {t}: {tm} expected {wm}")));
+                        }
+                    }
+                    let mut wc: BTreeMap<u32, usize> = BTreeMap::new();
+                    for t in &x {
+                        for c in r.anc_incl(*t).iter().filter(|a| cats.contains(a)) {
+                            *wc.entry(*c).or_insert(0) += 1;
+                        }
+                    }
+                    let gc: BTreeMap<u32, usize> = set.categories().iter().map(|(k, v)| (k.as_u32(), *v)).collect();
+                    if gc != wc {
+                        return Some(("HpoSet::categories".into(), "[custom categories] does not count the members per category".into(), format!("categories {cats:?} set {x:?}: {gc:?} expected {wc:?}")));
+                    }
+                    None
+                });
+                match res {
+                    Ok(None) => {}
+                    Ok(Some((site, sig, det))) => ctx.violation(&site, &sig, json!({"family": what, "facts": f.to_json(), "difference": det})),
+                    Err(p) => ctx.violation("HpoSet", "panics", json!({"family": what, "facts": f.to_json(), "set": x, "observed": p})),
+                }
+            }
+        }
+        ctx.sample(|| json!({"family": what, "custom_root_sets": root_sets.len(), "subsets": 1u32 << n}));
     }
     let _ = Facts::default;
 }
